@@ -223,7 +223,8 @@ struct GenFile {
 /// generation 0 and a freed number is reused with the generation of its free entry.
 fn gen_file(rng: &mut Rng) -> GenFile {
     let nobj = 1 + rng.below(6); // history objects 1..=nobj
-    let nrev = 1 + rng.usize(5);
+    // mostly short histories; one in twenty is long (more /Prev links than any fixed small budget)
+    let nrev = if rng.chance(1, 20) { 17 + rng.usize(24) } else { 1 + rng.usize(5) };
     let prefix_len = if rng.chance(1, 4) { rng.usize(40) } else { 0 };
     let prefix: Vec<u8> = (0..prefix_len).map(|_| b"abc \n\r123"[rng.usize(9)]).collect();
     let mut w = PdfWriter::new(&prefix, "1.7");
